@@ -48,8 +48,8 @@ impl Check for C01 {
     }
     fn lanes(&self, tier: Tier) -> Vec<(&'static str, usize, usize)> {
         match tier {
-            Tier::Quick => vec![("direct", 6000, 400)],
-            Tier::Thorough => vec![("direct", 600_000, 600)],
+            Tier::Quick => vec![("direct", 450_000, 400)],
+            Tier::Thorough => vec![("direct", 9_000_000, 600)],
         }
     }
     fn extra(&self, _tier: Tier, _st: &mut crate::runner::Stats, _known: &dyn Fn(&str) -> bool, _threads: usize) -> Result<serde_json::Value, Failure> {
